@@ -375,12 +375,12 @@ Print Assumptions C06_render_x_no_escape.
    String() is; json / round on floats answer in the float model's domain, NaN and the infinities under
    json are directiveJson's panic, i.e. an error value *)
 Theorem C06_json_total_float_free :
-  forall v args, float_free v = true -> exists s, dir_json v args = Ok (VStr s).
+  forall v args, float_free v = true -> exists s, dir_json (Some v) args = Ok (Some (VStr s)).
 Proof. exact json_total_float_free. Qed.
 Print Assumptions C06_json_total_float_free.
 
 Theorem C06_escape_js_total :
-  forall v args s, value_string v = Ok s -> dir_escape_js v args = Ok (VStr (JsEscape.js_escape is_print_tbl s)).
+  forall v args s, value_string v = Ok s -> dir_escape_js (Some v) args = Ok (Some (VStr (JsEscape.js_escape is_print_tbl s))).
 Proof. exact dir_escape_js_total. Qed.
 Print Assumptions C06_escape_js_total.
 
@@ -403,11 +403,12 @@ Proof. exact render_x_agrees. Qed.
 Print Assumptions C06_render_x_agrees.
 
 Example C06_ex_json :
-  dir_json (VList 5 [VInt 1; VUndef; VStr (b "a<b"); VMap 6 [(b "k", VBool true); (b "a", VNull)]]) []
-    = Ok (VStr (b "[1,null,""a\u003cb"",{""a"":null,""k"":true}]"))
-  /\ is_err (dir_json (VFloat FNaN) []) = true
-  /\ dir_json (VFloat (FFin 3 (-1))) [] = Ok (VStr (b "1.5"))
-  /\ dir_json (VList 0 []) [] = Ok (VStr (b "null")).
+  dir_json (Some (VList 5 [VInt 1; VUndef; VStr (b "a<b"); VMap 6 [(b "k", VBool true); (b "a", VNull)]])) []
+    = Ok (Some (VStr (b "[1,null,""a\u003cb"",{""a"":null,""k"":true}]")))
+  /\ is_err (dir_json (Some (VFloat FNaN)) []) = true
+  /\ dir_json (Some (VFloat (FFin 3 (-1)))) [] = Ok (Some (VStr (b "1.5")))
+  /\ dir_json (Some (VList 0 [])) [] = Ok (Some (VStr (b "null")))
+  /\ dir_json None [] = Ok (Some (VStr (b "null"))).
 Proof. vm_compute. repeat split; reflexivity. Qed.
 Example C06_ex_round_digits :
   round_x [VFloat (FFin 5 (-1)); VInt 1] = Ok (VFloat (FFin 5 (-1)))           (* round(2.5, 1) = 2.5 *)
